@@ -122,13 +122,16 @@ def _fields(ctx, R, roles, T, sites):
 
 
 def _is_new_local_id(ctx, f, n, c):
-    df = ctx.df(f)
-    a0 = c.args[1] if len(c.args) > 1 else None
-    k = varkey(unawait(a0)) if a0 is not None else None
-    if not k or not k.endswith(".local_id"):
+    from ..util import arg_of
+    from .c14 import same_id_as_captured
+    g = ctx.cfg(f)
+    caps = [(m, x) for m in g.live_nodes() for x in node_calls(m) if isinstance(x.func, ast.Name) and x.func.id == "_AdbTransactionInfo"]
+    a0 = arg_of(c, 1, "arg0")
+    if len(caps) != 1 or a0 is None:
         return False
-    d = df.unique_def(n, k.rsplit(".", 1)[0])
-    return d is not None and d.kind == "assign" and isinstance(unawait(d.value), ast.Call) and isinstance(unawait(d.value).func, ast.Name) and unawait(d.value).func.id == "_AdbTransactionInfo"
+    cn, cc = caps[0]
+    lid = cc.args[0] if cc.args else next((k.value for k in cc.keywords if k.arg == "local_id"), None)
+    return same_id_as_captured(ctx, f, n, a0, cn, cc, lid)
 
 
 def _id_writers(ctx, R, roles, T):
